@@ -39,6 +39,18 @@ func main() {
 	switch os.Args[1] {
 	case "dump", "gen", "prove", "funcs":
 		cmdDev(os.Args[1], os.Args[2:])
+	case "probes":
+		e := mustLoad()
+		bad, n := runProbes(e, 10*time.Second)
+		for _, b := range bad {
+			fmt.Println("PROBE-FAIL", b)
+		}
+		fmt.Printf("probes: %d run, %d failed\n", n, len(bad))
+		cleanupWorkDir()
+		if len(bad) > 0 {
+			os.Exit(2)
+		}
+		os.Exit(0)
 	case "check":
 		rc := cmdCheck(os.Args[2:])
 		cleanupWorkDir()
